@@ -37,8 +37,18 @@ def check(seed_dir, wt, head):
     patch = os.path.join(seed_dir, "patch.diff")
     rc_clean, o1 = sh(["/venv/bin/python", demo], cwd=wt, env=env, timeout=300)
     rc_apply, o2 = sh(["git", "apply", patch], cwd=wt)
+    rebased = False
     if rc_apply != 0:
-        return name, False, "patch no longer applies to HEAD " + head
+        # context lines may have moved because of a fix: commit; retry with fuzz and, if every hunk
+        # goes in, keep the regenerated diff (the change itself is unaltered)
+        sh("git checkout -q -- . && git clean -fdq", cwd=wt)
+        rc_fuzz, o2 = sh("patch -p1 -s -F3 --no-backup-if-mismatch < " + patch, cwd=wt)
+        sh("find . -name '*.orig' -delete; find . -name '*.rej' -delete", cwd=wt)
+        if rc_fuzz != 0:
+            sh("git checkout -q -- . && git clean -fdq", cwd=wt)
+            return name, False, "patch no longer applies to HEAD " + head
+        rebased = True
+        _, newdiff = sh("git diff HEAD -- src", cwd=wt)
     rc_comp, _ = sh(["/venv/bin/python", "-m", "compileall", "-q", "src"], cwd=wt)
     rc_pat, o4 = sh(["/venv/bin/python", demo], cwd=wt, env=env, timeout=300)
     rc_base, o5 = sh(["/venv/bin/python", "/verif/tools/baseline_check.py", wt], timeout=900)
@@ -55,6 +65,9 @@ def check(seed_dir, wt, head):
     except Exception:  # noqa: BLE001
         meta = {}
     c = meta.setdefault("confirmed", {})
+    if rebased:
+        open(patch, "w").write(newdiff)
+        c["rebased_onto"] = head + " (context lines only, applied with fuzz)"
     c["against_repo_commit"] = head
     c["revalidated"] = "clean demo exit 0; patched demo exit {}; compileall ok; baseline 0 regressed".format(rc_pat)
     json.dump(meta, open(mp, "w"), indent=1, ensure_ascii=False)
